@@ -51,6 +51,10 @@ def scenarios(tier):
     for args, kw in (((), {}), ((1, 'a', None), {}), ((), {'k': 1, 'z': [1, 2]}), (([1, (2,)], 0), {'kw': {'x': None}})):
         add('mod_echo', 'module', args, kw)
         add('main_echo', 'main', args, kw)
+    # long-running calls (one kind each, they run in separate shards)
+    for k in ('remote', 'process', 'thread'):
+        add('mod_slow', 'module', (7, 12 if k == 'remote' else 3), kinds=(k,))
+    add('mod_slow_raise', 'module', (13, 12), kinds=('remote',))
     # run flag / target None: dead at once, has_error False, result None
     for run in ('none', 'true', 'false'):
         add('mod_value', 'module', ('int',), run=run)
